@@ -319,6 +319,7 @@ def numbering_diff(ctx) -> None:
     ctx.reuse("C16.numbering-diff", c08.formulas)
     ctx.reuse("C16.numbering-diff", c08.regex_agreement)
     ctx.reuse("C16.numbering-diff", c08.device_private)
+    ctx.reuse("C16.numbering-diff", c08.trough_predicate)
 
 
 def generic_refuses(ctx) -> None:
